@@ -1,5 +1,5 @@
 """C03 — element, flat, list and summary views describe the same data."""
-from .. import ops_array, ops_nf
+from .. import ops_array, ops_nf, ops_entry
 from ..subject import Subject
 
 ASSUMPTIONS = [
@@ -18,3 +18,5 @@ def run(ctx):
     # the views of an object after it was produced by other operations / mutated in place
     ops_array.derived_views(ctx, ctx.budget(60, 600))
     ops_array.history_same_object(ctx, ctx.budget(60, 600))
+    for i in range(ctx.budget(40, 400)):
+        ops_entry.case_views_of_accepted_windows(ctx)
